@@ -493,6 +493,8 @@ func runC04rest(c *Ctx, f *ssa.Function, keyRet *ssa.Return) {
 	if rd := c.fn(relCachePlugin, "Cache", "readDump"); rd != nil {
 		checkDumpReaderFields(c, rd)
 	}
+	// ... and the dump writer pairs each key with that entry's own answer
+	checkDumpWriterPairing(c)
 	// shard maps are Go maps keyed by K: Lookup/MapUpdate use the key parameter itself
 	for _, name := range []string{"get", "set"} {
 		sf := p.Func("pkg/concurrent_map", "shard", name)
